@@ -389,6 +389,38 @@ func driveVSSWire(rc *RunCtx) {
 		if pr.Curve == "ec" {
 			libCurve = tss.S256()
 		}
+		// the library's own share check on the same wire data: true under the recipient's id, false under
+		// every other party's id, false for the share of another recipient
+		libVs := make(vss.Vs, len(vs))
+		libOK := true
+		for i := range vs {
+			p, err := crypto.NewECPoint(libCurve, vs[i].X, vs[i].Y)
+			if err != nil {
+				libOK = false
+				break
+			}
+			libVs[i] = p
+		}
+		if libOK {
+			for j := range ids {
+				own := &vss.Share{Threshold: t, ID: new(big.Int).Set(ids[j]), Share: new(big.Int).Set(vals[j])}
+				if !own.Verify(libCurve, t, libVs) {
+					rc.Fail("share-does-not-verify", "dealer %s: the library's Share.Verify rejects share %d under its own id", dealer.Name, j)
+					return
+				}
+				for k := range ids {
+					if k == j {
+						continue
+					}
+					other := &vss.Share{Threshold: t, ID: new(big.Int).Set(ids[k]), Share: new(big.Int).Set(vals[j])}
+					if other.Verify(libCurve, t, libVs) {
+						rc.Fail("share-verifies-under-other-id", "dealer %s: the library's Share.Verify accepts share %d under the id of share %d", dealer.Name, j, k)
+						return
+					}
+				}
+				rc.Res.Probes["library_share_verifications"]++
+			}
+		}
 		libRecon := func(sub []int) (*big.Int, error) {
 			shs := make(vss.Shares, len(sub))
 			for i, j := range sub {
